@@ -1,4 +1,4 @@
-use easy_error::{ensure, err_msg, Error, ResultExt};
+use easy_error::{ensure, Error, ResultExt};
 use futures::TryFutureExt;
 use milu::{
     parser::parse,
@@ -131,7 +131,15 @@ async fn log_thread(
 ) -> Result<(), Error> {
     let mut stream = BufWriter::new(log_open(&path).await?);
     loop {
-        let e = rx.recv().await.ok_or_else(|| err_msg("dequeue"))?;
+        // every sender gone: the proxy is shutting down (or `--test` is done) - leave quietly with the
+        // buffered lines written, not with an error the caller turns into a panic
+        let e = match rx.recv().await {
+            Some(e) => e,
+            None => {
+                stream.flush().await.context("flush")?;
+                return Ok(());
+            }
+        };
         if let Some(e) = e {
             // a record the format script cannot render (it was only checked against an empty request when
             // the configuration was loaded) must not end the log task, let alone the process: log it as JSON
